@@ -373,7 +373,7 @@ Section RemJ.
   Variable rem_rec : state -> string -> Z -> state * outcome bool.
   Hypothesis rem_rec_J : forall s id now, J s -> J (fst (rem_rec s id now)).
 
-  Lemma expire_J s id fact now : J s -> J (fst (expire rem_rec s id fact now)).
+  Lemma expire_J s id fact now : J s -> J (fst (fst (expire rem_rec s id fact now))).
   Proof.
     intros HJ. unfold expire. destruct (fact_expired fact now); [|exact HJ].
     pose proof (rem_rec_J s id now HJ) as H.
@@ -388,7 +388,8 @@ Section RemJ.
     - exact HJ.
     - destruct (alookup id (st_facts s)) as [fact|]; [|apply IH; exact HJ].
       pose proof (expire_J s id fact now HJ) as H.
-      destruct (expire rem_rec s id fact now) as [s1 expired]. cbn [fst] in H.
+      destruct (expire rem_rec s id fact now) as [[s1 expired] err]. cbn [fst] in H.
+      destruct (expire_stops (st_kind s) err); [exact H|].
       destruct expired; [apply IH; exact H|].
       destruct (core_match pattern fact []) as [[|b bss]|e|w|]; try exact H; apply IH; exact H.
   Qed.
@@ -486,7 +487,7 @@ Proof.
   - exact HJ.
   - destruct (alookup id (st_facts s)) as [fact|]; [|exact HJ].
     pose proof (expire_J st_rem_rec st_rem_rec_J s id fact now HJ) as H.
-    destruct (expire st_rem_rec s id fact now) as [s1 expired]. cbn [fst] in H.
+    destruct (expire st_rem_rec s id fact now) as [[s1 expired] err]. cbn [fst] in H.
     destruct expired; [apply IH; exact H|].
     destruct (extract_rule fact true) as [[body|]|e|w|]; try exact H. apply IH; exact H.
 Qed.
@@ -620,7 +621,7 @@ Proof.
 Qed.
 
 Lemma expire_noexp rr s id fact now :
-  fact_expired fact now = false -> expire rr s id fact now = (s, false).
+  fact_expired fact now = false -> expire rr s id fact now = (s, false, None).
 Proof. intros H. unfold expire. rewrite H. reflexivity. Qed.
 
 Lemma find_ids_idx_noexp s now :
@@ -1157,7 +1158,7 @@ Section RemGone.
   Variable rem_rec : state -> string -> Z -> state * outcome bool.
   Hypothesis rem_rec_gone : forall s j now, gone s -> gone (fst (rem_rec s j now)).
 
-  Lemma expire_gone s j fact now : gone s -> gone (fst (expire rem_rec s j fact now)).
+  Lemma expire_gone s j fact now : gone s -> gone (fst (fst (expire rem_rec s j fact now))).
   Proof.
     intros HG. unfold expire. destruct (fact_expired fact now); [|exact HG].
     pose proof (rem_rec_gone s j now HG) as H.
@@ -1172,7 +1173,8 @@ Section RemGone.
     - exact HG.
     - destruct (alookup j (st_facts s)) as [fact|]; [|apply IH; exact HG].
       pose proof (expire_gone s j fact now HG) as H.
-      destruct (expire rem_rec s j fact now) as [s1 expired]. cbn [fst] in H.
+      destruct (expire rem_rec s j fact now) as [[s1 expired] err]. cbn [fst] in H.
+      destruct (expire_stops (st_kind s) err); [exact H|].
       destruct expired; [apply IH; exact H|].
       destruct (core_match pattern fact []) as [[|b bss]|e|w|]; try exact H; apply IH; exact H.
   Qed.
